@@ -1043,6 +1043,84 @@ func init() {
 		}
 		return dumpV(p) + " " + l + " " + hx(b)
 	}
+	// pkrw p.DHCP <hex> <len> <expectations>: a BOOTP/DHCP message written by an independent encoder (RFC 2131 / 2132) is
+	// decoded with Write; every fixed field must hold what was written, Len() must be the message's size and Read must
+	// reproduce the message (DHCP has Read / Write instead of MarshalBinary / UnmarshalBinary)
+	runners["pkrw"] = func(a []string) string {
+		t, ok := typeReg[a[0]]
+		if !ok {
+			return "notype"
+		}
+		p := reflect.New(t)
+		data := backingOf(a[1], a[2])
+		if res := p.MethodByName("Write").Call([]reflect.Value{reflect.ValueOf(data)}); !res[1].IsNil() {
+			return "err"
+		}
+		l := callLen(p)
+		buf := make([]byte, atoi(l))
+		res := p.MethodByName("Read").Call([]reflect.Value{reflect.ValueOf(buf)})
+		if !res[1].IsNil() {
+			return dumpV(p) + " " + l + " err"
+		}
+		return dumpV(p) + " " + l + " " + hx(buf[:res[0].Int()])
+	}
+	ofGens = append(ofGens, func(c *Ctx) {
+		g := &swGen{r: c.rng}
+		n := 60
+		if c.thorough() {
+			n = 3000
+		}
+		for i := 0; i < n; i++ {
+			e := &swExp{}
+			op, hops, xid, secs, flags := 1+g.r.Intn(2), g.r.Intn(4), uint32(g.u(0xffffffff)), int(g.u(0xffff)), []int{0, 0x8000}[g.r.Intn(2)]
+			cip, yip, sip, gip := g.bytes(4), g.bytes(4), g.bytes(4), g.bytes(4)
+			mac := g.bytes(6)
+			sname, file := g.name(64, "srv"), g.name(128, "boot/pxe")
+			x := nb().u8(op, 1, 6, hops).u32(xid).u16(secs, flags).raw(cip).raw(yip).raw(sip).raw(gip).raw(mac).z(10).raw(sname).raw(file).u32(0x63825363)
+			// options: message type first, then a mix incl. pad options; the end option closes the list
+			nopt := 0
+			x.u8(53, 1, 1+g.r.Intn(8))
+			nopt++
+			for k := g.r.Intn(6); k > 0; k-- {
+				switch g.r.Intn(5) {
+				case 0:
+					x.u8(0) // pad: a lone tag byte
+				case 1:
+					x.u8(61, 7, 1).raw(mac)
+				case 2:
+					l := 1 + g.r.Intn(12)
+					x.u8(55, l).raw(g.bytes(l))
+				case 3:
+					x.u8(50, 4).raw(g.bytes(4))
+				default:
+					l := g.r.Intn(254)
+					x.u8(12+g.r.Intn(30), l).raw(g.bytes(l))
+				}
+				nopt++
+			}
+			x.u8(255)
+			e.num("Operation", uint64(op))
+			e.num("HardwareType", 1)
+			e.num("HardwareLen", 6)
+			e.num("HardwareOpts", uint64(hops))
+			e.num("Xid", uint64(xid))
+			e.num("Secs", uint64(secs))
+			e.num("Flags", uint64(flags))
+			e.raw("ClientIP", cip)
+			e.raw("YourIP", yip)
+			e.raw("ServerIP", sip)
+			e.raw("GatewayIP", gip)
+			e.raw("ClientHWAddr", mac)
+			e.raw("ServerName", sname)
+			e.raw("File", file)
+			e.count("Options", nopt)
+			back := append([]byte(nil), x.b...)
+			if i%3 == 2 {
+				back = append(back, make([]byte, 1+g.r.Intn(40))...) // BOOTP padding behind the end option
+			}
+			c.run("pkrw", "p.DHCP", hx(back), len(back), len(x.b), e.String("p.DHCP"))
+		}
+	})
 	// embedw <kind> <hex backing> <len>: the value decoded from a conformant wire image is self-consistent; its encoding
 	// must contain the complete encodings of its children (C06 on packet headers, whose fields applications fill in)
 	runners["embedw"] = func(a []string) string {
